@@ -79,7 +79,13 @@ SlotManager::SlotManager(ObjectStore*const objectStore)
 void SlotManager::insertToken(ObjectStore*const objectStore, const CK_SLOT_ID slotID, ObjectStoreToken*const pToken) {
 	Slot*const newSlot( new Slot(objectStore, slotID, pToken) );
 	const InsertResult result( slots.insert(SlotMapElement(slotID, newSlot)) );
-	assert(result.second);// fails if there is already a token on this slot
+	if (!result.second)
+	{
+		// There is already a token on this slot (two serial numbers map to the
+		// same slot ID); do not take the application down, skip this token
+		ERROR_MSG("Slot ID %lu is already in use, ignoring the token", (unsigned long) slotID);
+		delete newSlot;
+	}
 }
 
 // Destructor
